@@ -218,6 +218,11 @@ def file_relative(ctx):
                     pre = ['Summary text.', '', hdr, '    >>> print("skipped block")', '    skipped block', '    >>> 1 + 1', '    2', '']
                 elif r < 0.5:
                     pre = ['Leading prose.', 'More prose.', '']
+                elif r < 0.7:
+                    # the docstring opens with empty lines (1..3 of them after the line of the quotes) and has no summary text
+                    pre = [''] * rng.randint(1, 3)
+                    if text.startswith('Summary.\n\n'):
+                        text = text[len('Summary.\n\n'):]          # a google docstring whose first text is the block label
                 bodies.append('\n'.join(' ' * ind + l if l else l for l in (pre + text.split('\n'))))
             src = MODULE_TMPL % (bodies[0], bodies[1])
             path = os.path.join(tmp, 'xdverif_c18_m%d.py' % n)
